@@ -1,0 +1,44 @@
+//go:build verif
+
+package num
+
+// Contracts for the deductive checker in /verif (comment-only; compiled only under the verif tag).
+// natv(n) is the natural number held by a *numct.Nat, mval(m) the value of a *numct.Modulus (specs/numct.spec).
+
+// Decoders validate like the constructors (C12): a decoded residue is REDUCED (0 <= value < modulus, strictly),
+// a decoded positive natural is non-zero; on rejection the receiver is left as it was.
+//@ func (*Uint).UnmarshalCBOR
+//@   property C12
+//@   requires u != nil
+//@   ensures result == nil ==> u.v != nil && u.m != nil && natv(u.v) < mval(u.m)
+//@   ensures result != nil ==> u.v == old(u.v) && u.m == old(u.m)
+
+//@ func (*NatPlus).UnmarshalCBOR
+//@   property C12
+//@   requires np != nil
+//@   ensures result == nil ==> natv(np.v) != 0
+//@   ensures result != nil ==> np.v == old(np.v)
+
+//@ func (*Nat).UnmarshalCBOR
+//@   property C12
+//@   requires n != nil
+//@   ensures result == nil ==> n.v != nil
+//@   ensures result != nil ==> n.v == old(n.v)
+
+//@ func (*Int).UnmarshalCBOR
+//@   property C12
+//@   requires i != nil
+//@   ensures result == nil ==> i.v != nil
+//@   ensures result != nil ==> i.v == old(i.v)
+
+//@ func (*Rat).UnmarshalCBOR
+//@   property C12
+//@   requires r != nil
+//@   ensures result == nil ==> r.a != nil && r.b != nil
+//@   ensures result != nil ==> r.a == old(r.a) && r.b == old(r.b)
+
+//@ func (*ZMod).UnmarshalCBOR
+//@   property C12
+//@   requires z != nil
+//@   ensures result == nil ==> z.n != nil
+//@   ensures result != nil ==> z.n == old(z.n)
